@@ -90,6 +90,17 @@ def gen(rng, tier):
             blk = b"".join(machist.link_adr(r.below(16), r.below(16), r.choice([0xFFFF, 7, 0, 3, r.below(1 << 16)]), r.below(8)) for _ in range(r.range(2, 3)))
             other = r.choice([b"", machist.dev_status(), machist.rx_timing(3)])
             lines.append(command_case(r, region, r.choice([blk, blk + other, other + blk, blk + other + machist.link_adr(r.below(6), r.below(4), 7, 0)]), r.chance(1, 3)))
+        # two LinkADRReq blocks in one downlink, separated by another request; "15" (keep) in the second refers to what the first just set
+        updr = list(machist.UPLINK_DR[region])
+        for _ in range(24 if quick else 300):
+            d1, p1 = r.choice(updr), r.choice([0, 1, 2, 3, 5])
+            d2, p2 = r.choice([15, 15, r.choice(updr)]), r.choice([15, 15, 1, 2])
+            mask = 0x0007 if region not in (4, 8) else 0xFFFF
+            sep = r.choice([machist.dev_status(), machist.rx_timing(r.below(16)), machist.duty_cycle(r.below(16))])
+            seq = machist.link_adr(d1, p1, mask, 0) + sep + machist.link_adr(d2, p2, mask, 0)
+            if r.chance(1, 3):
+                seq += r.choice([machist.dev_status(), machist.link_adr(15, 15, mask, 0)])
+            lines.append(command_case(r, region, seq, r.chance(1, 3)))
         # RXParamSetupReq: every DLSettings byte x frequency classes
         for dls in (range(256) if not quick else range(region % 2, 256, 2)):
             fs = [ok, rx2, BAND[region][0] - 100, BAND[region][1] + 100, 0] if not quick else [r.choice([ok, rx2, BAND[region][0] - 100, BAND[region][1] + 100, 0])]
@@ -215,6 +226,40 @@ def oracle(case, impl, model=None):
                         k = j
                     else:
                         k += 1
+                # several requests in one downlink: the fully acknowledged LinkADRReq blocks apply IN SEQUENCE (a block = a run of consecutive
+                # LinkADRReq; its last request carries data rate and power; 15 = keep the value in force at that point of the sequence)
+                if len(answers) == len(handled) and len(reqs) > 1 and "before" in pending_reqs and "after" in pending_reqs:
+                    b, af = pending_reqs["before"], pending_reqs["after"]
+                    cur_dr, pw_kept = b[0], True
+                    ai, ri = 0, 0
+                    while ri < len(reqs):
+                        c, p = reqs[ri]
+                        if c == 0x03:
+                            rj = ri
+                            while rj + 1 < len(reqs) and reqs[rj + 1][0] == 0x03:
+                                rj += 1
+                            n = rj - ri + 1
+                            status = answers[ai][1][0] if ai < len(answers) and answers[ai][0] == 0x03 else None
+                            last = reqs[rj][1]
+                            if status == 7:
+                                if last[0] >> 4 != 15:
+                                    cur_dr = last[0] >> 4
+                                if last[0] & 15 != 15:
+                                    pw_kept = False
+                            ai += n
+                            ri = rj + 1
+                        else:
+                            if (c, p) in handled:
+                                ai += 1
+                            ri += 1
+                    if any(c == 0x03 for c, _ in reqs) and ai == len(answers):
+                        if af[0] != cur_dr:
+                            return {"kind": "several requests in one downlink: the data rate is not what the acknowledged LinkADRReq blocks command in sequence "
+                                            "(15 = keep the value in force at that point)", "before": b, "after": af, "expected_dr": cur_dr,
+                                    "requests": [("%02x" % c) + p.hex() for c, p in reqs]}
+                        if pw_kept and af[2] != b[2]:
+                            return {"kind": "several requests in one downlink: TX power changed although every acknowledged LinkADRReq block said 'keep' (15)",
+                                    "before": b, "after": af, "requests": [("%02x" % c) + p.hex() for c, p in reqs]}
                 # ACK => effect / NAK => unchanged, judged on the configuration snapshot for single-command downlinks
                 if len(handled) == 1 and len(answers) == 1 and len(reqs) == 1:
                     (c, p), (ca, pa) = handled[0], answers[0]
